@@ -100,6 +100,18 @@ CLAIMED = {
         '(compile) and tied only by correspondence. EXPR_ERROR propagation, attachment conditions/blocks and plain matchers are outside this check (C11/C13/C04).',
    technique='Coq proof (structural induction over conditions and rule lists; list-append lemmas for matches_merge) + differential -d / real-run correspondence + spec monitor',
    ref='DESIGN 6 C03'),
+ 'C11': dict(
+   text='Coq theorems (partial): the body a condition or exec stdin body sees is decode_body of the message, or for multipart/alternative of the first text/plain '
+        'part, else the first text/html part, else the raw body; decode_body decodes by the exact Content-Transfer-Encoding value (base64 = RFC 4648 decoding by C16, '
+        'undecodable = error; quoted-printable; otherwise as is); a MIME error makes the body an error; an entity nested beyond the depth limit is an error; the '
+        'attachment condition is exists-with-first-error-or-match-wins over the part list, the attachment block is for-each and an error in any part is an error. '
+        'Tied by (a) message_get_body / message_get_attachments vs the extracted model on generated MIME texts incl. malformed structure, (b) generated well-formed '
+        'trees with ground truth: number and pre-order of parts, every part\'s decoded body, the depth limit, the text/plain preference, (c) the binary with body / '
+        'attachment body / attachment header rules, attachment blocks and exec stdin body, judged by platform regexec over the decoded content and by a recording helper.',
+   note='NOT proved: the flattening theorem (the part list of a rendered tree is the pre-order list of its parts); that direction is covered by the ground-truth '
+        'monitor only. Charset conversion does not exist in mdsort and is not part of the property.',
+   technique='Coq proof (case analysis over the body-selection and decoding functions, induction over the part list) + differential runs against generated MIME trees with ground truth',
+   ref='DESIGN 6 C11'),
  'C12': dict(
    text='Coq theorems about the model of match.c interpolate / isbackref (incl. strtoul blanks, signs, INT_MAX) / ismacro / match_backref: interpolation terminates on '
         'every template; it equals "tokenize the template with a function that sees neither message nor macro values, substitute each token once, concatenate" - so '
